@@ -191,12 +191,16 @@ func genC02(w *bufio.Writer, tier string, rng *rand.Rand) {
 		}
 		fmt.Fprintf(w, "}}\n")
 	}
-	// random larger: untied to 50+50, tied to 25+25
-	nl := pick(tier, 60, 1500)
+	// random larger: untied to 50+50, tied to 25+25; the first cases sit on the corners of those ranges
+	corners := [][3]int{{25, 25, 1}, {25, 25, 1}, {24, 25, 1}, {25, 24, 1}, {1, 25, 1}, {25, 1, 1}, {1, 49, 1}, {49, 1, 1}, {2, 48, 1}, {10, 40, 1}, {20, 30, 1}, {30, 20, 1},
+		{50, 50, 0}, {49, 50, 0}, {50, 1, 0}, {1, 50, 0}, {26, 25, 0}, {25, 26, 0}, {13, 8, 1}, {16, 16, 1}, {32, 32, 0}}
+	nl := pick(tier, 60, 1500) + len(corners)
 	for k := 0; k < nl; k++ {
 		var n1, n2 int
 		var t []int
-		if rng.Intn(2) == 0 {
+		if k < len(corners) && corners[k][2] == 0 {
+			n1, n2 = corners[k][0], corners[k][1]
+		} else if k >= len(corners) && rng.Intn(2) == 0 {
 			n1, n2 = 1+rng.Intn(50), 1+rng.Intn(50)
 			if rng.Intn(3) == 0 {
 				t = make([]int, n1+n2)
@@ -206,6 +210,9 @@ func genC02(w *bufio.Writer, tier string, rng *rand.Rand) {
 			}
 		} else {
 			n1, n2 = 1+rng.Intn(25), 1+rng.Intn(25)
+			if k < len(corners) {
+				n1, n2 = corners[k][0], corners[k][1]
+			}
 			rem := n1 + n2
 			maxT := []int{2, 3, 6, 30}[rng.Intn(4)]
 			for rem > 0 {
@@ -320,6 +327,8 @@ func sumI(xs []int) int {
 	return s
 }
 
+var cornersC01 = [][3]int{{25, 25, 1}, {25, 25, 1}, {24, 25, 1}, {25, 1, 1}, {1, 25, 1}, {1, 49, 1}, {2, 48, 1}, {20, 30, 1}, {50, 50, 0}, {50, 50, 0}, {49, 50, 0}, {50, 1, 0}, {1, 50, 0}, {33, 2, 0}, {63, 3, 0}, {5, 1, 0}, {7, 1, 1}}
+
 func genC01(w *bufio.Writer, tier string, rng *rand.Rand) {
 	emit := func(x1, x2 []float64, alt int) {
 		fmt.Fprintf(w, "mwu %s %s %d 50 25\n", fmtFs(x1), fmtFs(x2), alt)
@@ -354,6 +363,9 @@ func genC01(w *bufio.Writer, tier string, rng *rand.Rand) {
 		}
 		if rng.Intn(4) == 0 { // small
 			n1, n2 = 1+rng.Intn(7), 1+rng.Intn(7)
+		}
+		if k < len(cornersC01) { // the corners of the exact ranges first
+			n1, n2, tied = cornersC01[k][0], cornersC01[k][1], cornersC01[k][2] == 1
 		}
 		N := n1 + n2
 		mode := rng.Intn(5)
